@@ -32,6 +32,8 @@ ASSUMPTIONS = [
     "normalised cone max(0, r-d), d in element counts (relative units) or physical lengths (absolute units)",
     "DensityFilter distance: element counts; on a domain with non-unit element size a result that uses physical "
     "distances instead is accepted as well (statement silent)",
+    "a one-axis kernel (N,) is read like every other kernel: axis 0 is x (the constructor appends the missing trailing "
+    "axes); the docstring names 2-D and 3-D kernels only, so this is the natural extension the code itself implements",
     "override_values: the statement does not say whether mirror images of an overridden element show the override; "
     "both orders (extend-then-override, override-then-extend) are accepted, strict agreement is demanded where they coincide",
     "2-D domains get 2-D kernels (size one in z); kernels of even size and radius 0 are documented non-support",
@@ -314,6 +316,9 @@ def _quick_cases(seed):
     for ks in ((3, 1, 1), (1, 3, 1), (1, 1, 1)):
         tl = [list(a) + list(b) + list(c) for a in few for b in few for c in (SYM2, (0.7, 'wrap'))]
         yield from emit(_fcw((3, 2, 0), ks, 'asymn', '2d', [], seed), tl)
+    # one-axis kernels (N,): the code extends missing trailing axes, so axis 0 stays x
+    for g, ks in (((3, 2, 0), (3, 1, 1)), ((2, 3, 0), (5, 1, 1)), ((2, 2, 2), (3, 1, 1))):
+        yield from emit(_fcw(g, ks, 'asymn', '1d', [], seed), MIXED6)
     tl = [list(a) + list(b) + list(c) for a in few for b in few for c in PAIRS]
     yield from emit(_fcw((2, 3, 0), (3, 3, 1), 'asymn', '3d', [], seed), tl)
     tl = [list(a) + list(b) + list(c) for a in few for b in PAIRS for c in few]
@@ -494,6 +499,8 @@ def exec_fc(case):
     if fam == 'FCW':
         w3 = make_kernel(case['kernel'], tuple(case['kshape']), seed)
         w_arg = w3[:, :, 0].copy() if (case.get('form') == '2d' and w3.shape[2] == 1) else w3.copy()
+        if case.get('form') == '1d' and w3.shape[1] == w3.shape[2] == 1:
+            w_arg = w3[:, 0, 0].copy()      # one-axis kernel: axis 0 of a kernel is x, whatever its number of axes
         kdesc = f"{case['kernel']}{'x'.join(map(str, case['kshape']))}"
         build = lambda modes, o: build_fc(pym, dom, n, modes, weights=w_arg, ovr=o)  # noqa: E731
     else:
